@@ -73,8 +73,12 @@ def run(ctx):
         for ri in range(6):
             g = opgen.OpGen(rng, case.ir, max_depth=rng.choice([1, 2, 3, 4]), p_directive=0.3)
             doc = g.document(n_ops=rng.choice([1, 2, 3]))
+            # a lone operation may stay anonymous: a name filter then never selects it
+            keep_anonymous = len(doc.operations) == 1 and rng.random() < 0.5
             for i, o in enumerate(doc.operations):
-                o.name = o.name or "Anon%d" % i
+                o.name = (None if keep_anonymous else o.name or "Anon%d" % i)
+            if keep_anonymous:
+                ctx.count("documents_with_anonymous_operation")
             families = [("base", doc, [])]
             for _ in range(2):
                 d2, kinds = wrap_copy(rng, doc, case.ir)
